@@ -258,7 +258,12 @@ func HTMLAssets(item *models.Item) (assets []*models.URL, err error) {
 
 				// If the URL already has http (or https), we don't need add anything to it.
 				if !strings.Contains(matchReplacement, "http") {
-					matchReplacement = strings.Replace(matchReplacement, "//", "http://", -1)
+					// A scheme-relative reference takes the scheme of the page, as in a browser
+					scheme := "http"
+					if parsed := item.GetURL().GetParsed(); parsed != nil && parsed.Scheme != "" {
+						scheme = parsed.Scheme
+					}
+					matchReplacement = strings.Replace(matchReplacement, "//", scheme+"://", -1)
 				}
 
 				if strings.HasPrefix(matchReplacement, "#wp-") {
